@@ -310,10 +310,19 @@ def run_histories(res, histories, what):
             bad += 1
             if bad <= 3:
                 i = first[0]
-                res.violation('%s: step %d (%s): implementation %r, model (proved) %r'
-                              % (what, i, h.ops[i] if i >= 0 else '-', first[1], first[2]),
+                kind = h.ops[i].split()[0] if i >= 0 else '-'
+                # the printed text and the live-node count are model fidelity, not the property's observable: they are a
+                # failing input only together with a direct finding on the implementation (round trip, identity, duplicates)
+                fidelity_only = kind in ('str', 'exp', 'nodes') and not h.notes
+                res.violation('%s: step %d (%s): implementation %r, model (proved) %r%s'
+                              % (what, i, h.ops[i] if i >= 0 else '-', first[1], first[2],
+                                 ' — correspondence of the %s with the model no longer checks; the round-trip / identity '
+                                 'oracles found nothing on this history' % {'str': 'printer', 'exp': 'printer', 'nodes': 'live-node count'}.get(kind, '')
+                                 if fidelity_only else ''),
                               {'ordering': h.ordering, 'ops': h.ops[: i + 1] if i >= 0 else h.ops,
-                               'impl': h.impl[: i + 1] if i >= 0 else h.impl, 'model': ms[: i + 1] if i >= 0 else ms})
+                               'impl': h.impl[: i + 1] if i >= 0 else h.impl, 'model': ms[: i + 1] if i >= 0 else ms,
+                               'correspondence': 'PMC.BDD.printStr / printExp / subtrees vs __str__ / BDDNode.nodes()' if fidelity_only else None},
+                              no_input=fidelity_only)
         for n in h.notes[:2]:
             bad += 1
             res.violation('%s: %s' % (what, n), {'ordering': h.ordering, 'ops': h.ops})
